@@ -286,7 +286,7 @@ func compareWithModel(items []Scenario, impl map[int]Result) (matched map[int]st
 		go func(sc Scenario) {
 			defer wg.Done()
 			defer func() { <-sem }()
-			ok, _, e := searchSchedule(sc, impl[sc.ID].Out, 3000)
+			ok, _, e := searchSchedule(sc, impl[sc.ID].Out, 8000)
 			mu.Lock()
 			defer mu.Unlock()
 			if e != nil {
@@ -374,7 +374,8 @@ func TestFamily(t *testing.T) {
 		}
 	}
 
-	// ---- which scenarios does the model expect to crash the client? (guards F15, F41) --------------
+	// ---- which scenarios does the model expect to crash the client? (open finding F43; any other
+	// predicted panic means a bare assertion is back) -------------------------------------------------
 	pre, err := modelRun(scs, policies[0], false)
 	if err != nil {
 		fail("model driver failed: " + err.Error())
@@ -393,6 +394,16 @@ func TestFamily(t *testing.T) {
 
 	shapes := map[string]bool{}
 	addDis := func(d hcommon.Disagreement) {
+		if d.Finding == findingCloseRace && prop == "C17" {
+			line := findingCloseRace + ": a goroutine of the client sending while Close() closes the send channel panics (send on closed channel)"
+			have := false
+			for _, l := range sum.KnownFindings {
+				have = have || l == line
+			}
+			if !have {
+				sum.KnownFindings = append(sum.KnownFindings, line)
+			}
+		}
 		if d.Finding != "" {
 			for _, e := range sum.Disagreements {
 				if e.Finding == d.Finding {
@@ -403,7 +414,7 @@ func TestFamily(t *testing.T) {
 		}
 		sum.Disagreements = append(sum.Disagreements, d)
 	}
-	// ---- the guarded shapes, each in its own child (F15, F41) ----------------------------------------------
+	// ---- the scenarios the model expects to crash the client, each in its own child -----------------------
 	var extra []Scenario
 	extraRes := map[int]Result{}
 	if prop == "C17" {
@@ -442,9 +453,9 @@ func TestFamily(t *testing.T) {
 					if siteMatches(site, kind, fn) {
 						sum.TracesValidated++
 						sum.Count("crash-site-agrees." + fn + "." + kind)
-						f := findingPPT
+						f := ""
 						if kind == "chan" {
-							f = findingPPTAbort
+							f = findingCloseRace
 						}
 						addDis(hcommon.Disagreement{Input: sc, Impl: line, Model: site, SpecViolation: true, Finding: f,
 							Detail: fmt.Sprintf("scenario %d: router-supplied data crashes the client (%s), as the model predicts (%s)", sc.ID, line, site)})
@@ -455,11 +466,8 @@ func TestFamily(t *testing.T) {
 				case len(rs) == 1 && rs[0].Panic != "":
 					// panic in the goroutine of an API call or of Close (recovered by the harness)
 					f := ""
-					if strings.Contains(site, "closed channel") && strings.Contains(rs[0].Panic, "closed channel") {
-						f = findingPPTAbort
-						sum.TracesValidated++
-					} else if strings.HasPrefix(site, "unpack") {
-						f = findingPPT
+					if strings.Contains(site, "send on closed channel") && strings.Contains(rs[0].Panic, "send on closed channel") {
+						f = findingCloseRace
 						sum.TracesValidated++
 					}
 					addDis(hcommon.Disagreement{Input: sc, Impl: rs[0].Panic, Model: site, SpecViolation: true, Finding: f,
@@ -517,11 +525,8 @@ func TestFamily(t *testing.T) {
 			known := ""
 			for _, pol := range policies[1:] {
 				mo, err := modelRun([]Scenario{sc}, pol, false)
-				if err == nil && mo[0].Crashed != "" && siteMatches(mo[0].Crashed, kind, fn) {
-					known = findingPPT
-					if kind == "chan" {
-						known = findingPPTAbort
-					}
+				if err == nil && mo[0].Crashed != "" && siteMatches(mo[0].Crashed, kind, fn) && kind == "chan" {
+					known = findingCloseRace
 					break
 				}
 			}
@@ -569,18 +574,8 @@ func TestFamily(t *testing.T) {
 				if err != nil || mo[0].Crashed == "" {
 					continue
 				}
-				mk := strings.SplitN(strings.SplitN(mo[0].Crashed+": ", ": ", 2)[1], " ", 2)[0]
-				if strings.Contains(mo[0].Crashed, "closed channel") && kind == "chan" {
-					f := findingCloseRace // a send after Close() closed the channel
-					if newView(sc, r).pptAbortShape() {
-						f = findingPPTAbort
-					}
-					vs = []Violation{{Clause: "C17.no-panic", Detail: "the client panicked: " + r.Panic + " (model: " + mo[0].Crashed + ")", Finding: f}}
-					matched[id] = pol.Name
-					break
-				}
-				if mk == kind {
-					vs = []Violation{{Clause: "C17.no-panic", Detail: "the client panicked: " + r.Panic + " (model: " + mo[0].Crashed + ")", Finding: findingPPT}}
+				if strings.Contains(mo[0].Crashed, "send on closed channel") && kind == "chan" {
+					vs = []Violation{{Clause: "C17.no-panic", Detail: "the client panicked: " + r.Panic + " (model: " + mo[0].Crashed + ")", Finding: findingCloseRace}}
 					matched[id] = pol.Name
 					break
 				}
@@ -615,10 +610,8 @@ func TestFamily(t *testing.T) {
 	}
 
 	phase("evaluate")
-	if prop == "C17" {
-		for _, d := range witnessReplays(*flagOut, sum) {
-			addDis(d)
-		}
+	for _, d := range witnessReplays(*flagOut, sum, prop) {
+		addDis(d)
 	}
 	sum.DistinctNontrivial = len(shapes)
 	if len(sum.Disagreements) > 12 {
